@@ -1,22 +1,45 @@
-/* C05 correspondence harness: the real qmail-smtpd.c blast() (DATA decoder + hop counter).
- * usage: c05_blast <maxlen> <nrandom> <seed> <shard> <nshards>     |  c05_blast -   (cases "<chunk> <hex>" on stdin)
- * output per case: <chunk> <input-hex> <A|S|E|T> <stored-hex> <consumed> <hops>
- *   A = blast returned (terminator seen), S = straynewline (451), E = die_read at end of input, T = other exit */
+/* C05 correspondence harness: the real qmail-smtpd.c blast() (DATA decoder + hop counter) over the real substdio / saferead.
+ * usage: c05_blast <maxlen> <nrandom> <seed> <shard> <nshards>     |  c05_blast -   (cases "<plan> <hex>" on stdin)
+ * output per case: <plan> <input-hex> <A|S|E|T> <stored-hex> <consumed> <hops> <ssin.p> <ssin.n> <nreads>
+ *   A = blast returned (terminator seen), S = straynewline (451), E = die_read (end of input or failing read), T = other exit
+ * <plan> (one token) says how the stream is cut into read()s: comma-separated caps used cyclically, one per read() call
+ *   (0 = no cap, e = this read fails with EIO), optionally followed by @k: the first k bytes of the stream are consumed
+ *   through substdio_get(&ssin,buf,<=k) before blast() is called (so blast() starts with bytes already buffered, as after
+ *   a pipelined DATA command).  A plain integer is the old <chunk>.  consumed counts from the end of the skipped prefix. */
 #include "hcommon.h"
+#include <errno.h>
 #define _exit(x) h_exit(x)
 #define main qmail_smtpd_main
 #include "qmail-smtpd.c"
 #undef main
 #undef _exit
 
-static const unsigned char *in_p; static size_t in_n, in_pos; static int in_chunk;
+static const unsigned char *in_p; static size_t in_n, in_pos;
 static hbuf stored, replyb;
+#define MAXPLAN 64
+static int plan[MAXPLAN], plan_n; static long plan_k, in_reads; static int plan_skip, in_failed;
 
-/* replaces timeoutread.o: serve the scripted stream; 0 at its end */
+static int parse_plan(const char *t) {
+  plan_n = 0; plan_skip = 0;
+  while (*t && *t != '@') {
+    if (plan_n >= MAXPLAN) return 0;
+    if (*t == 'e') { plan[plan_n++] = -1; t++; }
+    else if (*t >= '0' && *t <= '9') { plan[plan_n++] = (int)strtol(t, (char **)&t, 10); }
+    else return 0;
+    if (*t == ',') t++;
+  }
+  if (*t == '@') plan_skip = atoi(t + 1);
+  return plan_n > 0;
+}
+
+/* replaces timeoutread.o: serve the scripted stream according to the plan; 0 at its end */
 ssize_t timeoutread(int t, int fd, char *buf, size_t len) {
+  int c = plan[plan_k++ % plan_n];
+  in_reads++;
+  if (c < 0) { in_failed = 1; errno = EIO; return -1; }
   size_t k = in_n - in_pos;
   if (k > len) k = len;
-  if (in_chunk > 0 && k > (size_t)in_chunk) k = in_chunk;
+  if (c > 0 && k > (size_t)c) k = c;
   memcpy(buf, in_p + in_pos, k); in_pos += k;
   return k;
 }
@@ -32,26 +55,38 @@ void qmail_to(struct qmail *qq, char *s) {}
 char *qmail_close(struct qmail *qq) { return ""; }
 unsigned long qmail_qp(struct qmail *qq) { return 1; }
 
-static void one(const unsigned char *m, size_t n, int chunk) {
+static void onep(const unsigned char *m, size_t n, const char *tok) {
   int hops = -1;
+  if (!parse_plan(tok)) return;
   ssin.p = 0; ssin.n = sizeof ssinbuf;
   ssout.p = 0;
-  in_p = m; in_n = n; in_pos = 0; in_chunk = chunk;
+  in_p = m; in_n = n; in_pos = 0; plan_k = 0; in_reads = 0; in_failed = 0;
   hbuf_reset(&stored); hbuf_reset(&replyb);
   bytestooverflow = 0; qqt.flagerr = 0;
   char st = 'A';
   h_exit_armed = 1;
-  if (setjmp(h_jb) == 0) { blast(&hops); }
+  if (setjmp(h_jb) == 0) {
+    static char skipbuf[4096];
+    long left = plan_skip;
+    while (left > 0) {                      /* the pipelined prefix: saferead exits at end of input / on a failing read */
+      ssize_t r = substdio_get(&ssin, skipbuf, left > (long)sizeof skipbuf ? sizeof skipbuf : (size_t)left);
+      if (r <= 0) h_exit(1);
+      left -= r;
+    }
+    blast(&hops);
+  }
   else {
     if (replyb.n >= 3 && !memcmp(replyb.p, "451", 3)) st = 'S';
-    else if (replyb.n == 0 && in_pos == in_n) st = 'E';
+    else if (replyb.n == 0 && (in_pos == in_n || in_failed)) st = 'E';
     else st = 'T';
   }
   h_exit_armed = 0;
-  long consumed = (long)in_pos - ssin.p;
-  fprintf(h_out, "%d ", chunk); h_hex(m, n); fprintf(h_out, " %c ", st); h_hex(stored.p, stored.n);
-  fprintf(h_out, " %ld %d\n", st == 'A' ? consumed : -1, st == 'A' ? hops : -1);
+  long consumed = (long)in_pos - ssin.p - plan_skip;
+  fprintf(h_out, "%s ", tok); h_hex(m, n); fprintf(h_out, " %c ", st); h_hex(stored.p, stored.n);
+  fprintf(h_out, " %ld %d %d %d %ld\n", st == 'A' ? consumed : -1, st == 'A' ? hops : -1,
+          st == 'A' ? ssin.p : -1, st == 'A' ? (int)ssin.n : -1, in_reads);
 }
+static void one(const unsigned char *m, size_t n, int chunk) { char t[24]; snprintf(t, sizeof t, "%d", chunk); onep(m, n, t); }
 
 static int unhex(const char *h, unsigned char *o) {
   int n = 0;
@@ -69,9 +104,9 @@ int main(int argc, char **argv) {
   if (argc > 1 && !strcmp(argv[1], "-")) {
     static char line[400000], hx[400000]; static unsigned char b[200000];
     while (fgets(line, sizeof line, stdin)) {
-      int chunk;
-      if (sscanf(line, "%d %s", &chunk, hx) != 2) continue;
-      one(b, unhex(hx, b), chunk);
+      char tok[400];
+      if (sscanf(line, "%399s %s", tok, hx) != 2) continue;
+      onep(b, unhex(hx, b), tok);
     }
     fflush(h_out);
     return 0;
@@ -107,6 +142,32 @@ int main(int argc, char **argv) {
       one(m, n, (int)(k % 3));
     }
   }
+  /* (3b) every single-byte perturbation of the two keywords (each of the first 10 positions: case flipped, next letter,
+   *      'x', '.', CR, and the line cut at that position), as first / second header line and after the empty line */
+  {
+    static const char *kw[] = { "received: a", "RECEIVED: a", "ReCeIvEd: a", "delivered-to: b", "DELIVERED-TO: b", "dElIvErEd-to: b" };
+    for (unsigned w = 0; w < sizeof kw / sizeof kw[0]; w++)
+      for (int p = 0; p < 10; p++)
+        for (int v = 0; v < 6; v++)
+          for (int place = 0; place < 3; place++, id++) {
+            if ((int)(id % nshards) != shard) continue;
+            char l[64]; size_t ll = strlen(kw[w]); memcpy(l, kw[w], ll);
+            switch (v) {
+              case 0: l[p] ^= 0x20; break;
+              case 1: l[p] += 1; break;
+              case 2: l[p] = 'x'; break;
+              case 3: l[p] = '.'; break;
+              case 4: l[p] = '\r'; break;
+              default: ll = p; break;
+            }
+            size_t n = 0;
+            if (place == 1) { memcpy(m + n, "Received: first\r\n", 17); n += 17; }
+            if (place == 2) { memcpy(m + n, "Subject: s\r\n\r\n", 14); n += 14; }
+            memcpy(m + n, l, ll); n += ll;
+            memcpy(m + n, "\r\nDelivered-To: last\r\n\r\nbody\r\n.\r\n", 33); n += 33;
+            one(m, n, (int)(id % 3));
+          }
+  }
   /* (4) seeded random streams */
   h_seed(seed * 1000003ull + shard);
   for (int r = 0; r < nrandom; r++) {
@@ -124,6 +185,57 @@ int main(int argc, char **argv) {
     }
     if (r % 3) { memcpy(b + n, "\r\n.\r\nRSET\r\n", 11); n += 11; }
     one(b, n, (int[]){0, 1, 7, 1024, 1500}[h_below(5)]);
+    free(b);
+  }
+  /* (5) chunking sweep (theorem C05_chunking): streams longer than ssinbuf (1024), each delivered under every read plan of a
+   *     fixed set (1, 2, 1023, 1024, 1025, full, a mixed plan with a 1023-byte read after a partial one), two random
+   *     short-read plans, one plan starting with bytes already buffered (@skip) and one with a failing read */
+  for (int r = 0; r < nrandom / 16 + 2; r++) {
+    if ((r % nshards) != shard) continue;
+    size_t n = 1030 + h_below(r % 5 == 0 ? 6000 : 2400);
+    unsigned char *b = malloc(n + 64);
+    size_t i = 0;
+    while (i < n) {                               /* mostly well-formed CRLF lines with dots and bare CRs */
+      uint32_t ll = h_below(70), kind = h_below(12);
+      if (kind == 0 && i + 1 < n) b[i++] = '.';
+      if (kind == 1 && i + 2 < n) { b[i++] = '.'; b[i++] = '\r'; }
+      for (uint32_t j = 0; j < ll && i < n; j++) { uint32_t x = h_below(30); b[i++] = x == 0 ? '\r' : x == 1 ? '.' : 'a' + x % 26; }
+      if (i < n) b[i++] = '\r';
+      if (i < n) b[i++] = (r % 11 == 10 && h_below(40) == 0) ? 'x' : '\n';
+    }
+    if (r % 9 != 8) { memcpy(b + n, "\r\n.\r\nRSET\r\nNOOP\r\n", 17); n += 17; }
+    static const char *fixed[] = { "0", "1", "2", "1023", "1024", "1025", "700,1023,5,1024,1", "1023,1", "512,511,1" };
+    for (unsigned k = 0; k < sizeof fixed / sizeof fixed[0]; k++) onep(b, n, fixed[k]);
+    for (int k = 0; k < 2; k++) {
+      char tok[400]; int o = 0, np = 2 + h_below(12);
+      for (int j = 0; j < np; j++) {
+        uint32_t c = h_below(4) == 0 ? 1020 + h_below(8) : h_below(3) == 0 ? 1 + h_below(4) : 1 + h_below(1100);
+        o += snprintf(tok + o, sizeof tok - o, "%s%u", j ? "," : "", c);
+      }
+      onep(b, n, tok);
+    }
+    { char tok[64]; snprintf(tok, sizeof tok, "%d,0@%u", (int[]){1023, 1024, 300, 7}[h_below(4)], 1 + h_below(1500)); onep(b, n, tok); }
+    { char tok[64]; snprintf(tok, sizeof tok, "%u,%u,e", 1 + h_below(1100), 1 + h_below(1100)); onep(b, n, tok); }
+    free(b);
+  }
+  /* (6) every framing string placed across the buffer refill: padding so that the 1024-byte boundary falls before, inside
+   *     (at every position) and after the string; full reads */
+  {
+    int wl = maxlen - 4 < 3 ? 3 : maxlen - 4;
+    unsigned char *b = malloc(1024 + wl + 32);
+    for (int len = 1; len <= wl; len++) {
+      uint64_t total = 1; for (int i = 0; i < len; i++) total *= 4;
+      for (uint64_t k = 0; k < total; k++, id++) {
+        if ((int)(id % nshards) != shard) continue;
+        for (int cut = 0; cut <= len; cut++) {
+          size_t pad = 1024 - cut, n = 0;
+          memset(b, 'x', pad); b[pad - 2] = '\r'; b[pad - 1] = '\n'; n = pad;
+          uint64_t v = k; for (int i = 0; i < len; i++) { b[n++] = alpha[v & 3]; v >>= 2; }
+          memcpy(b + n, "\r\n.\r\nQUIT\r\n", 11); n += 11;
+          onep(b, n, (cut & 1) ? "1024" : "0");
+        }
+      }
+    }
     free(b);
   }
   fflush(h_out);
